@@ -85,9 +85,22 @@ CLAIMS = [
                 'floats. Bounded: ranks 1-3 sizes <= 3 (4 thorough), units <= 2, batch <= 2, outer products up to 9 factors.',
         'design_ref': 'DESIGN.md section 4 C02',
     },
+    {
+        'property_id': 'C20',
+        'level': 'proof',
+        'technique': 'contract-based deductive verification: real Linear.build/call under a Keras stub on symbolic kernel, '
+                     'bias and inputs; equality with the clipped affine spec (normal form, z3/cvc5); lemmas over the spec',
+        'text': 'Linear.call carries the postcondition out[b,u] == bias_u + sum_i kernel[i,u]*clip(x_i) for units = 1 and > 1, '
+                'every enumerated subset of bounded inputs, with/without bias - for ALL kernels, biases and inputs. '
+                'Monotonicity, per-step and over-range dominance and the weighted-average statement are lemmas under the '
+                'constraint set of C06.',
+        'note': 'Trusted: operator contracts (clip_by_value with infinite bounds; cross-checked each run), Keras stub, z3/cvc5, '
+                'reals for floats. Bounded: dims <= 3/4, units <= 3, batch <= 2.',
+        'design_ref': 'DESIGN.md section 4 C20',
+    },
 ]
 
 _PENDING = 'check not built yet in this session (planned, see DESIGN.md section 4); not claimed until its check exists'
 NOT_APPLICABLE = [
-    {'property_id': 'C%02d' % i, 'reason': _PENDING} for i in range(2, 21) if i not in (2, 4, 6, 12, 13)
+    {'property_id': 'C%02d' % i, 'reason': _PENDING} for i in range(2, 21) if i not in (2, 4, 6, 12, 13, 20)
 ]
